@@ -27,7 +27,7 @@ def burst_case(draw):
   sched_ = [list(x) for x in lag] + [list(x) for x in draw(schedule_st)]
   return {"pubs": pubs, "schedule": sched_, "publishers": draw(st.sampled_from([1, 1, 2])),
           # publish through the fabric directly, or through a (decorated / undecorated) active object
-          "via": draw(st.sampled_from(["fabric", "fabric", "ao_decorated", "ao_undecorated"])),
+          "via": draw(st.sampled_from(["fabric", "fabric", "ao_decorated", "ao_undecorated", "ao_not_yet_started"])),
           "before_start": draw(st.sampled_from([0, 0, 1, 2, 3, 4])),
           # a long-lived process: this many publications were made before the case starts
           "published_before": draw(st.sampled_from([None, None, 2 ** 15 - 3, 2 ** 16 - 4, 2 ** 31 - 3, 2 ** 32 - 5,
@@ -74,6 +74,8 @@ class C08(Prop):
       import itertools
       ao.FabricEvent.sequence = itertools.count(case["published_before"])
 
+    late_start = []
+
     def body(s):
       af = ao.ActiveFabric()
       for sig in SIGS:
@@ -84,8 +86,15 @@ class C08(Prop):
         from .. import aocheck
         rec_ = aocheck.Rec()
         publisher = aocheck.make_ao_class(rec_)(name="vfpub")
-        publisher.start_at(aocheck.flat_chart(rec_, decorate=case["via"] == "ao_decorated"))
-        if case.get("before_start", 0):
+        if case["via"] == "ao_not_yet_started":
+          # the object publishes before it is started (its requests wait in its own queue), and is
+          # started when the fabric is
+          late_start.append(lambda: publisher.start_at(aocheck.flat_chart(rec_, decorate=True)))
+        else:
+          publisher.start_at(aocheck.flat_chart(rec_, decorate=case["via"] == "ao_decorated"))
+        if case["via"] == "ao_not_yet_started":
+          pass
+        elif case.get("before_start", 0):
           af.stop()          # the object started the fabric: stop it so that publications can wait in it
         else:
           s.quiesce()
@@ -105,7 +114,9 @@ class C08(Prop):
       b = min(case.get("before_start", 0), n)
       publish_range(range(b))
       af.start()
-      if not b:
+      for f_ in late_start:
+        f_()
+      if not b or late_start:
         s.quiesce()
       if case["publishers"] == 1:
         publish_range(range(b, n))
@@ -127,6 +138,10 @@ class C08(Prop):
       name, e, tb = s.thread_errors[0]
       raise PropertyViolation("thread %s died: %s: %s" % (name, type(e).__name__, e), "C08:thread-error")
     waiting3 = False
+    # publications REQUESTED through an object whose thread does not run yet wait in that object's
+    # own queue, not in the fabric
+    requested_early = set(range(min(case.get("before_start", 0), len(case["pubs"])))) \
+        if case.get("via") == "ao_not_yet_started" else set()
     for kind, r in recs.items():
       order = [i for i, _ in r.items]
       if sorted(order) != sorted(pubs):
@@ -150,11 +165,15 @@ class C08(Prop):
           # y was delivered before x
           px, py = pubs[x], pubs[y]
           if px["prio"] == py["prio"] and px["ret"] < py["inv"]:
-            self.violation(stats, "%s thread: publication %d (priority %s) was published before %d "
-                           "(same priority) but delivered after it; delivery order %s" % (
-                             kind, x, px["prio"], y, order), "C08:equal-priority-order")
+            early = x in requested_early and y in requested_early
+            if self.violation(stats, "%s thread: publication %d (priority %s) was published before %d "
+                              "(same priority) but delivered after it; delivery order %s%s" % (
+                                kind, x, px["prio"], y, order,
+                                " (both requested through an object that had not been started yet)" if early else ""),
+                              "C08:requests-before-start-reversed" if early else "C08:equal-priority-order") is False:
+              continue
             return stats.case(case, waiting3, ["publishers_%d" % case["publishers"]])
-          if px["prio"] < py["prio"]:
+          if px["prio"] < py["prio"] and x not in requested_early:
             k = pos[y]
             bound = r.items[k - 1][1] if k else py["inv"]
             if px["ret"] <= bound:
